@@ -36,3 +36,17 @@ Theorem C01_block : forall s c fuel fs cs named,
      toks <- wrap_struct c (c_hint c) named (ls ++ List.concat gs ++ spec_update c) ;; Ok (toks, [])).
 Proof. exact init_block_plain. Qed.
 Print Assumptions C01_block.
+
+(* at the entry point (Lemmas/FlatBlock.v): for a struct without flattening - no #[child], no parameterised #[parent], no #[ghosts]
+   entry with a path, distinct field names - the member list struct_init_block works on IS the field list in declaration order (the
+   sort by first-seen path is the identity), so the block theorem holds of struct_init_block itself *)
+From O2o.Lemmas Require Import FlatBlock.
+
+Theorem C01_whole_block : forall s c,
+    flat_struct s ->
+    ((negb (is_from (c_kind c)) && hint_eqb (c_hint c) HUnit) || (is_from (c_kind c) && sv_unit s)) = false ->
+    struct_init_block s c =
+    (ls <- spec_lines (sv_fields s) c (c_hint c) 0 ;; gs <- spec_ghosts s c ;;
+     wrap_struct c (c_hint c) (sv_named s) (ls ++ List.concat gs ++ spec_update c)).
+Proof. exact flat_struct_init_block. Qed.
+Print Assumptions C01_whole_block.
